@@ -46,7 +46,7 @@ HeapStd == { <<Nd2(RefCell(2), VInt(1)), Nd2(VInt(1), L1)>>,              \* t =
              <<Nd2(Inl, VInt(1)), Nd2(Branch(Nd2(None, L1)), VInt(1))>>,   \* two trees of one shape: a -> ab, ab listed in both
              <<Nd1(VInt(1)), Nd2(RefCell(3), RefCell(3)), Nd1(L1)>> }      \* a shared branch
 HeapWide == {<<n1, n2>> : n1 \in UNION {[S -> {VInt(1), RefCell(2), Inl}] : S \in (SUBSET Key) \ {{}}},
-                          n2 \in {<<>>} \cup UNION {[S -> {VInt(1), L1}] : S \in (SUBSET Key) \ {{}}}}
+                          n2 \in {<<>>, Nd1(VInt(1)), Nd2(VInt(1), L1), [a |-> None]}}
 HeapU == HeapStd \cup (IF Wide THEN {h \in HeapWide : SessHeapOk(h)} ELSE {})
 
 \* one object of each kind spelling the same path (equal by value, three realisations)
@@ -134,8 +134,8 @@ NewLeaf == VStr("n")
 IgnS  == IF Wide THEN {<<>>, <<None>>} ELSE {<<>>}
 \* (the step records are made as elements of a set, so that TLC hands Step a VALUE and not an unevaluated expression)
 DoGet      == \E c \in {[kind |-> "get", fn |-> fn, rt |-> rt, p |-> p] : fn \in {"getitem", "get"}, rt \in Objs, p \in PathI} : Step(c)
-DoSetItem  == \E c \in {[kind |-> "setitem", rt |-> rt, p |-> p, leaf |-> lf, ign |-> g] :
-                            rt \in Objs, p \in PathI, lf \in (IF Wide THEN {NewLeaf, None} ELSE {NewLeaf}), g \in IgnS} : Step(c)
+DoSetItem  == \E c \in {[kind |-> "setitem", rt |-> rt, p |-> p, leaf |-> lg[1], ign |-> lg[2]] :
+                            rt \in Objs, p \in PathI, lg \in (IF Wide THEN {<<NewLeaf, <<>> >>, <<None, <<None>> >>} ELSE {<<NewLeaf, <<>> >>})} : Step(c)
 DoUpdate   == \E c \in {[kind |-> "update", rt |-> rt, ru |-> ru, ign |-> g] : rt \in Objs, ru \in Objs, g \in IgnS} : Step(c)
 DoItems    == \E c \in {[kind |-> "items", rt |-> rt] : rt \in Objs} : Step(c)
 DoToTable  == \E c \in {[kind |-> "to_table", rt |-> rt, pat |-> pat] :
